@@ -325,6 +325,18 @@ func c09Build(driver string, threads int) [][]c09Call {
 				mk("b", func(b *bytes.Buffer) error { return v.Render(b, "h20_b.vuego", data) }),
 				mk("tpl", func(b *bytes.Buffer) error { return t.Load("h20_a.vuego").Fill(data).Render(bg, b) })}
 		}
+	case "H21-unseen-expressions-with-variables-named-like-library-functions":
+		// every request compiles a condition the engine has not seen, over a variable that is called
+		// like a function of the expression library (type, last, first, len ...): each compilation
+		// leaves those functions out on its own
+		names := []string{"type", "last", "first", "len", "max", "min"}
+		t := vuego.New()
+		for i := range out {
+			name := names[i%len(names)]
+			tpl := fmt.Sprintf(`<b v-if="%s == 'v%d'">%s-{{ canary }}</b><i v-else>no</i><u :title="%s + '!'">t</u>`, name, i, name, name)
+			data := map[string]any{name: fmt.Sprintf("v%d", i), "canary": fmt.Sprintf("CANARY_T%d", i)}
+			out[i] = []c09Call{mk("cold", func(b *bytes.Buffer) error { return t.New().Fill(data).RenderString(bg, b, tpl) })}
+		}
 	case "H19-processor-with-per-render-state":
 		// a node processor that numbers elements: the count lives in the instance New() hands out
 		// for each render, in the pre-processing and in the post-processing step
@@ -381,7 +393,7 @@ func c09WalkH2(nodes []*html.Node, f func(*html.Node)) {
 	}
 }
 
-var c09Drivers = []string{"H1-cold-cache-same-file", "H2-shared-caller-map", "H3-v-once-warm", "H4-unseen-paths-and-expressions", "H4b-path-cache-at-limit", "H5-include-slots-layout-filters", "H6-files-edited-underneath", "H7-renderstring-on-new", "H8-funcs-and-errors", "H9-components-with-v-once-and-wrappers", "H10-same-page-different-data", "H11-front-matter-page-with-template-variables-vue", "H12-front-matter-page-with-template-variables-load", "H13-attribute-slices-with-spare-capacity-vue", "H14-attribute-slices-with-spare-capacity-load", "H15-layout-page-with-v-once-and-shorthand", "H16-layout-page-warm", "H17-shared-defaults-plus-assign", "H18-less-processor", "H19-processor-with-per-render-state", "H20-shared-read-only-data-of-other-map-types"}
+var c09Drivers = []string{"H1-cold-cache-same-file", "H2-shared-caller-map", "H3-v-once-warm", "H4-unseen-paths-and-expressions", "H4b-path-cache-at-limit", "H5-include-slots-layout-filters", "H6-files-edited-underneath", "H7-renderstring-on-new", "H8-funcs-and-errors", "H9-components-with-v-once-and-wrappers", "H10-same-page-different-data", "H11-front-matter-page-with-template-variables-vue", "H12-front-matter-page-with-template-variables-load", "H13-attribute-slices-with-spare-capacity-vue", "H14-attribute-slices-with-spare-capacity-load", "H15-layout-page-with-v-once-and-shorthand", "H16-layout-page-warm", "H17-shared-defaults-plus-assign", "H18-less-processor", "H19-processor-with-per-render-state", "H20-shared-read-only-data-of-other-map-types", "H21-unseen-expressions-with-variables-named-like-library-functions"}
 
 // c09Reset puts every piece of process-global state the engine has into its initial state.
 func c09Reset(driver string) {
